@@ -11,6 +11,7 @@ from harness.runlevel import drive, Observer, ExpansionRecorder, partitions_of
 from harness import c01
 
 PROPERTY = "C03"
+PATH_BUDGET = {"thorough": 2500}
 ASSUMPTIONS = [
     "mode index: the parent's index i>=1 and depth h>=0 are arbitrary integers (solver variables); label uniqueness per depth then follows by induction from the root label (0,1) (paper argument)",
     "mode sched: the solver only enumerates the finite choices (which leaf / deepen) — bounded-exhaustive exploration of all interleavings up to m operations",
